@@ -354,7 +354,21 @@ func replayOverlayPkg(repo, pkgPattern string, harnessFiles []string, outDir, pr
 		os.WriteFile(dst, []byte(hb.String()), 0o644)
 		overlay[filepath.Join(pkgDir, "zz_verif_hooks.go")] = dst
 	}
+	var foreign []string
 	for k := range cuts {
+		if !applied[k] {
+			foreign = append(foreign, k)
+		}
+	}
+	// cuts of functions in other packages of the module: hook variables (cuts_foreign.go)
+	hooked, err := applyForeignCuts(repo, pkgDir, pkgName, foreign, overlay, outDir)
+	if err != nil {
+		return nil, nil, err
+	}
+	for _, k := range hooked {
+		applied[k] = true
+	}
+	for _, k := range foreign {
 		if !applied[k] {
 			notApplied = append(notApplied, k)
 		}
